@@ -606,6 +606,10 @@ func (api *DatabaseAPI) handleInsert(opID []byte, key string, data []byte) {
 	}
 
 	acc := r.GetAccessor(r)
+	if acc == nil {
+		api.send(opID, dbMsgTypeError, "record does not support inserting values", nil)
+		return
+	}
 
 	result := gjson.ParseBytes(data)
 	anythingPresent := false
